@@ -358,4 +358,208 @@ theorem fitBlock_fitted_kept (cfg : Cfg) (opt : Problem → OptOut) (hc : OptCon
           (shape_refl block0) (kept_refl _ _ hl0) blk dev h
       exact ⟨block0, prev, cols', hb0, h1, h2, h3, h4, h5, h6⟩
 
+/-! ## row-level predicates -/
+
+/-- THE BOUND PREDICATE ON ONE ROW.  Row `i` (a member of cluster `cl`) of the table `t`, against
+the start table `t0`: in every parameter column `j` (mode `m`, validated spec `s`) both cells are
+finite — new value `x`, start value `p` OF THE SAME ROW — and
+* `const` (0): `x = p`;
+* `var` (1): `x` lies in `[lowOf s p, highOf s p]`, the bounds computed from ITS OWN start value —
+  by `bounds_narrowest_*` every requested difference / relative / absolute bound, by
+  `default_bounds_position` within the mask radius of its start, by `default_bounds_positive` > 0;
+* shared (`cluster`, 3; per-cluster level): `x` lies in the packed bounds of the START values `ps`
+  of the rows of its cluster (`packed_*`: the broadest of the members' bounds, still every absolute
+  bound and the default positivity). -/
+def RowFitOK (cfg : Cfg) (t0 t : Table) (cl : List Nat) (i : Nat) : Prop :=
+  ∀ j m s, cfg.modes[j]? = some m → cfg.specs[j]? = some s →
+    ∃ x p, cell t j i = some (some x) ∧ cell t0 j i = some (some p) ∧
+      (m = 0 → x = p) ∧
+      (m = 1 → inB x (lowOf s p, highOf s p) = true) ∧
+      (2 ≤ m → ∃ ps : List Rat, cl.map (cell t0 j) = ps.map (fun q => some (some q)) ∧
+          inB x (minLow (ps.map (lowOf s)), maxHigh (ps.map (highOf s))) = true)
+
+/-- the cluster failed: every row has cost NaN and the parameter values of `t0` -/
+def ClFailed (t0 t : Table) (cl : List Nat) : Prop :=
+  ∀ i ∈ cl, t.cost[i]? = some Cost.nan ∧ ∀ j, cell t j i = cell t0 j i
+
+/-- the cluster was fitted: every row carries the deviation `dev` reported by the optimiser as its
+cost (`costOf dev`; NaN iff `dev = none`) and satisfies the bound predicate -/
+def ClFitted (cfg : Cfg) (opt : Problem → OptOut) (t0 t : Table) (cl : List Nat) : Prop :=
+  ∃ dev, (∃ pb x, opt pb = .ok x dev) ∧
+    ∀ i ∈ cl, t.cost[i]? = some (costOf dev) ∧ RowFitOK cfg t0 t cl i
+
+theorem RowEq.symm {a b : Table} {i : Nat} (h : RowEq a b i) : RowEq b a i :=
+  ⟨h.1.symm, fun j => (h.2 j).symm⟩
+
+theorem clFailed_congr {t0 t0' t t' : Table} {cl : List Nat} (h0 : ∀ i ∈ cl, RowEq t0 t0' i)
+    (h1 : ∀ i ∈ cl, RowEq t t' i) (h : ClFailed t0 t cl) : ClFailed t0' t' cl := fun i hi =>
+  ⟨(h1 i hi).1.trans (h i hi).1, fun j =>
+    ((h1 i hi).2 j).trans (((h i hi).2 j).trans ((h0 i hi).2 j).symm)⟩
+
+theorem clFitted_congr {cfg : Cfg} {opt : Problem → OptOut} {t0 t0' t t' : Table} {cl : List Nat}
+    (h0 : ∀ i ∈ cl, RowEq t0 t0' i) (h1 : ∀ i ∈ cl, RowEq t t' i)
+    (h : ClFitted cfg opt t0 t cl) : ClFitted cfg opt t0' t' cl := by
+  obtain ⟨dev, hd, h⟩ := h
+  refine ⟨dev, hd, fun i hi => ⟨(h1 i hi).1.trans (h i hi).1, fun j m s hm hs => ?_⟩⟩
+  obtain ⟨x, p, a1, a2, a3, a4, a5⟩ := (h i hi).2 j m s hm hs
+  refine ⟨x, p, ((h1 i hi).2 j).trans a1, ((h0 i hi).2 j).trans a2, a3, a4, fun h2 => ?_⟩
+  obtain ⟨ps, b1, b2⟩ := a5 h2
+  refine ⟨ps, ?_, b2⟩
+  rw [← b1]
+  exact List.map_congr_left (fun r hr => (h0 r hr).2 j)
+
+/-! ## one step of the loop, at row level -/
+
+theorem extract_getElem? (t : Table) (cl : List Nat) (j : Nat) :
+    (extract t cl)[j]? = (t.cols[j]?).map (fun c => gather none c cl) := by
+  simp [extract]
+
+/-- what a successful fit writes into ONE column, in terms of the column of the table -/
+theorem fitted_col (cfg : Cfg) (t : Table) (cl : List Nat) (block0 prev cols' : List (List Rat))
+    (hsm : cfg.specs.length = cfg.modes.length) (hcols : t.cols.length = cfg.modes.length)
+    (hex : extract t cl = someBlock block0) (hsh : Shape block0 prev)
+    (hk1 : Kept cfg.modes block0 prev) (hk2 : Kept cfg.modes prev cols')
+    (hok : ColsOK none cfg.modes cfg.specs block0 prev cols') (j : Nat) (hj : j < t.cols.length) :
+    ∃ m s c0 c', cfg.modes[j]? = some m ∧ cfg.specs[j]? = some s ∧ block0[j]? = some c0 ∧
+      cols'[j]? = some c' ∧ gather none t.cols[j] cl = c0.map some ∧ c'.length = cl.length ∧
+      c0.length = cl.length ∧ (m = 0 → c' = c0) ∧
+      (m = 1 → Forall₂ (fun x p => inB x (lowOf s p, highOf s p) = true) c' c0) ∧
+      (2 ≤ m → ∃ v, c' = c0.map (fun _ => v) ∧
+        inB v (minLow (c0.map (lowOf s)), maxHigh (c0.map (highOf s))) = true) := by
+  have hl0 : block0.length = t.cols.length := by
+    have := congrArg List.length hex
+    simpa [extract, someBlock] using this.symm
+  have hl1 := (kept_length _ _ _ hk1).1
+  have hl2 := (kept_length _ _ _ hk2).1
+  have hm : cfg.modes[j]? = some cfg.modes[j] := List.getElem?_eq_getElem (by omega)
+  have hs : cfg.specs[j]? = some cfg.specs[j] := List.getElem?_eq_getElem (by omega)
+  have h0 : block0[j]? = some block0[j] := List.getElem?_eq_getElem (by omega)
+  have h1 : prev[j]? = some prev[j] := List.getElem?_eq_getElem (by omega)
+  have h' : cols'[j]? = some cols'[j] := List.getElem?_eq_getElem (by omega)
+  have hg : gather none t.cols[j] cl = block0[j].map some := by
+    have := congrArg (·[j]?) hex
+    simp only [extract_getElem?, List.getElem?_eq_getElem hj, Option.map_some, someBlock,
+      List.getElem?_map, h0, Option.some.injEq] at this
+    exact this
+  have hc0 : block0[j].length = cl.length := by
+    have := congrArg List.length hg
+    simpa [gather] using this.symm
+  have hsl := shape_get _ _ j _ _ hsh h0 h1
+  have hcol := colsOK_get none _ _ _ _ _ j _ _ _ _ _ hok hm hs h0 h1 h'
+  refine ⟨_, _, _, _, hm, hs, h0, h', hg, by rw [hcol.1]; omega, hc0, fun hm0 => ?_, fun hm1 => ?_,
+    fun hm2 => ?_⟩
+  · have e1 := kept_get _ _ _ j _ _ hk1 (hm0 ▸ hm) h0 h1
+    have e2 := kept_get _ _ _ j _ _ hk2 (hm0 ▸ hm) h1 h'
+    rw [e2, e1]
+  · have := hcol.2
+    simp only [hm1, one_ne_zero, if_false, if_true] at this
+    exact this
+  · have := hcol.2
+    have hne0 : cfg.modes[j] ≠ 0 := by omega
+    have hne1 : cfg.modes[j] ≠ 1 := by omega
+    have hgf : groupsFor none cfg.modes[j] = none := by simp [groupsFor]
+    simp only [hne0, hne1, if_false, hgf] at this
+    obtain ⟨v, e, hv⟩ := this
+    refine ⟨v, ?_, hv⟩
+    rw [e]
+    apply List.ext_getElem
+    · simp; omega
+    · intro k _ _; simp
+
+/-- ONE STEP, at row level.  For a cluster of distinct row positions inside a well-formed table the
+step returns a well-formed table in which every row outside the cluster is unchanged and the
+cluster is DECIDED: failed (cost NaN, values kept) or fitted (cost = the reported deviation, every
+row within the bounds computed from its own values BEFORE the step). -/
+theorem stepCluster_decides (cfg : Cfg) (opt : Problem → OptOut) (hc : OptContract opt)
+    (hsm : cfg.specs.length = cfg.modes.length) (n : Nat) (t t1 : Table) (tag : Nat)
+    (cl : List Nat) (hT : TableOK cfg n t) (hnd : cl.Nodup) (hin : ∀ i ∈ cl, i < n)
+    (hstep : stepCluster cfg opt t tag cl = .ok t1) :
+    TableOK cfg n t1 ∧ (∀ i, i ∉ cl → RowEq t t1 i) ∧
+      (ClFailed t t1 cl ∨ ClFitted cfg opt t t1 cl) := by
+  obtain ⟨hT1, hT2, hT3⟩ := hT
+  unfold stepCluster at hstep
+  split at hstep
+  · simp at hstep
+  · rename_i o hfit
+    simp only [Except.ok.injEq] at hstep
+    subst hstep
+    cases o with
+    | failed =>
+      refine ⟨⟨by simp [writeBack, scatter_length, hT1], hT2, hT3⟩,
+        fun i hi => writeBack_rows_outside t cl _ (by intro _ _ h; cases h) i hi, Or.inl ?_⟩
+      intro i hi
+      exact writeBack_failed_rows t cl i hi (by rw [hT1]; exact hin i hi)
+    | fitted blk dev =>
+      obtain ⟨block0, prev, cols', hex, hblk, hsh, hk1, hk2, hok, hdev⟩ :=
+        fitBlock_fitted_kept cfg opt hc hsm none _ tag _ _ blk dev
+          (by simp [extract, hT2]) hfit
+      have hl0 : block0.length = t.cols.length := by
+        have := congrArg List.length hex
+        simpa [extract, someBlock] using this.symm
+      have hl1 := (kept_length _ _ _ hk1).1
+      have hl2 := (kept_length _ _ _ hk2).1
+      have hbl : blk.length = t.cols.length := by rw [hblk]; simp [someBlock]; omega
+      have hbw : ∀ b ∈ blk, b.length = cl.length := by
+        intro b hb
+        rw [hblk] at hb
+        obtain ⟨j, hj, rfl⟩ := List.getElem_of_mem hb
+        have hj' : j < t.cols.length := by simp [someBlock] at hj; omega
+        obtain ⟨m, s, c0, c', _, _, _, e', _, hlen, _⟩ :=
+          fitted_col cfg t cl block0 prev cols' hsm hT2 hex hsh hk1 hk2 hok j hj'
+        have : (someBlock cols')[j] = c'.map some := by
+          simp only [someBlock, List.getElem_map]
+          have := List.getElem?_eq_getElem (l := cols') (i := j) (by omega)
+          rw [e'] at this
+          simp only [Option.some.injEq] at this
+          rw [← this]
+        rw [this]
+        simpa using hlen
+      refine ⟨⟨by simp [writeBack, scatter_length, hT1], ?_, ?_⟩,
+        fun i hi => writeBack_rows_outside t cl _
+          (by intro b d h; cases h; exact hbl) i hi, Or.inr ⟨dev, hdev, ?_⟩⟩
+      · simp [writeBack, hbl, hT2]
+      · intro c hcm
+        simp only [writeBack] at hcm
+        obtain ⟨j, hj, rfl⟩ := List.getElem_of_mem hcm
+        simp only [List.getElem_zipWith, scatter_length]
+        exact hT3 _ (List.getElem_mem _)
+      · intro i hi
+        obtain ⟨k, hk, rfl⟩ := List.getElem_of_mem hi
+        obtain ⟨hcost, hcell⟩ := writeBack_rows_of_cluster t cl blk dev n hT1 hT3 hnd hin hbl hbw k hk
+        refine ⟨hcost, fun j m s hm hs => ?_⟩
+        have hj : j < t.cols.length := by
+          have := (List.getElem?_eq_some_iff.mp hm).1
+          omega
+        obtain ⟨m', s', c0, c', em, es, e0, e', hg, hlen', hlen0, f0, f1, f2⟩ :=
+          fitted_col cfg t cl block0 prev cols' hsm hT2 hex hsh hk1 hk2 hok j hj
+        rw [hm] at em
+        rw [hs] at es
+        simp only [Option.some.injEq] at em es
+        subst em es
+        have hlt : cl[k] < t.cols[j].length := by
+          rw [hT3 _ (List.getElem_mem _)]
+          exact hin _ (List.getElem_mem _)
+        have hcellt : ∀ r, r < n → cell t j r = some (t.cols[j].getD r none) := by
+          intro r hr
+          have : r < t.cols[j].length := by rw [hT3 _ (List.getElem_mem _)]; exact hr
+          simp [cell, List.getElem?_eq_getElem hj, List.getD_eq_getElem?_getD, this]
+        have hp : t.cols[j].getD cl[k] none = some c0[k] := by
+          have := congrArg (·[k]?) hg
+          simpa [gather, hk, List.getElem?_eq_getElem (show k < c0.length by omega)] using this
+        refine ⟨c'[k], c0[k], ?_, ?_, fun h => by subst h; simp [f0 rfl], fun h => ?_, fun h => ?_⟩
+        · rw [hcell j, hblk]
+          simp [someBlock, e', List.getElem?_eq_getElem (show k < c'.length by omega)]
+        · rw [hcellt _ (hin _ (List.getElem_mem _)), hp]
+        · exact (f1 h).get (by omega) (by omega)
+        · obtain ⟨v, ev, hv⟩ := f2 h
+          refine ⟨c0, ?_, ?_⟩
+          · have : cl.map (cell t j) = (gather none t.cols[j] cl).map some := by
+              simp only [gather, List.map_map]
+              exact List.map_congr_left (fun r hr => hcellt r (hin r hr))
+            rw [this, hg, List.map_map]
+            rfl
+          · have : c'[k] = v := by simp [ev]
+            rw [this]
+            exact hv
+
 end TrackpyV.Bounds
